@@ -75,6 +75,14 @@ class Inventory:
             r2.restrict(set(reg.branchless[:1]), set(), {reg.pred_ids[-1]})
             self.suite_fitness.append(
                 ("BranchDistanceTestSuiteFitnessFunction[restricted]", r2, None))
+            # both outcomes of one predicate (and of all predicates) excluded: what
+            # WholeSuiteAlgorithm._update_archive does once the archive covers a predicate entirely
+            both = [{pid} for pid in reg.pred_ids] + ([set(reg.pred_ids)] if len(reg.pred_ids) > 1 else [])
+            for excl in both:
+                rb = ff.BranchDistanceTestSuiteFitnessFunction(executor)
+                rb.restrict(set(), set(excl), set(excl))
+                self.suite_fitness.append(
+                    ("BranchDistanceTestSuiteFitnessFunction[restricted]", rb, None))
         elif reg.branchless:
             r3 = ff.BranchDistanceTestSuiteFitnessFunction(executor)
             r3.restrict(set(reg.branchless[:1]), set(), set())
